@@ -184,9 +184,9 @@ Section Pending.
     assert (NN : forall s', le s s' -> I s') by (intros s' N; now apply (I_le s)).
     destruct f; cbn [step].
     - (* FVisit *) destruct (completed (st s n)); [exact C|]. destruct (negb (started (st s n))).
-      + unfold thr_loop. destruct (awaiting p e s n); [destruct (in_ended_block p s n); exact C|]. unfold enter. apply NN. ll.
+      + unfold thr_loop. destruct (awaiting p e s n); [destruct (ended_here p s n k); exact C|]. unfold enter. apply NN. ll.
       + unfold enter. apply NN. ll.
-    - (* FThr *) unfold thr_loop. destruct (awaiting p e s n); [destruct (in_ended_block p s n); exact C|]. unfold enter. apply NN. ll.
+    - (* FThr *) unfold thr_loop. destruct (awaiting p e s n); [destruct (ended_here p s n k); exact C|]. unfold enter. apply NN. ll.
     - (* FNodeTick: dispatch *) unfold dispatch. destruct (n_kind (nd p n)) eqn:K.
       + destruct (completed (st s n)); exact C.
       + destruct trailing; apply NN; ll.
@@ -225,7 +225,7 @@ Section Pending.
     - exact C.
     - destruct (_ || _); exact C.
     - (* FKids *) destruct (nth_error (n_children (nd p n)) i) as [c|]; [|apply NN; ll].
-      destruct (_ || _); [apply NN; ll|]. destruct (Nat.ltb i _); [exact C|]. destruct (in_ended_block p s c); [apply NN; ll|exact C].
+      destruct (_ || _); [apply NN; ll|]. destruct (Nat.ltb i _); [exact C|]. destruct (ended_here p s c k); [apply NN; ll|exact C].
     - apply NN. ll.
     - exact C.
     - exact C.
